@@ -22,6 +22,7 @@ struct F16 { u8 a; u16 b; };
 struct F64 { u32 a; u64 b; u8 c; };
 struct F12 { u32 a; u32 b; u32 c; };
 struct FO { u8* a; u8 b; };
+struct FL { u16 a<2>; u8 b; };
 struct FO8 { u64* a; };
 union U4 { 1: u8 a; 2: u16 b; };
 union U8 { 0: u64 a; 3: u8 b; 7: F16 c; };
@@ -48,6 +49,8 @@ typedef F64 TF64;
         t['F64'] = W.Struct('F64', [W.Field('a', u32), W.Field('b', u64), W.Field('c', u8)])
         t['F12'] = W.Struct('F12', [W.Field('a', u32), W.Field('b', u32), W.Field('c', u32)])
         t['FO'] = W.Struct('FO', [W.Field('a', W.Optional(u8)), W.Field('b', u8)])
+        t['FL'] = W.Struct('FL', [W.Field('num_of_a', u32, ['a']), W.Field('a', W.Array(W.LIMITED, 2, u16, 'num_of_a')),
+                                  W.Field('b', u8)])
         t['FO8'] = W.Struct('FO8', [W.Field('a', W.Optional(u64))])
         t['U4'] = W.Union('U4', [W.Arm(1, 'a', u8), W.Arm(2, 'b', u16)])
         t['U8'] = W.Union('U8', [W.Arm(0, 'a', u64), W.Arm(3, 'b', u8), W.Arm(7, 'c', t['F16'])])
@@ -64,7 +67,7 @@ typedef F64 TF64;
 
 POOL = Pool()
 
-FIXED_TYPES = ['u8', 'u16', 'u32', 'u64', 'i8', 'i16', 'i32', 'i64', 'E', 'E1', 'F8', 'F16', 'F64', 'F12', 'FO', 'FO8',
+FIXED_TYPES = ['u8', 'u16', 'u32', 'u64', 'i8', 'i16', 'i32', 'i64', 'E', 'E1', 'F8', 'F16', 'F64', 'F12', 'FO', 'FL', 'FO8',
                'U4', 'U8', 'U12', 'TU16', 'TF64']
 DYN_TYPES = ['D1', 'D8', 'DD']
 UNL_TYPES = ['G1', 'G16']
@@ -263,3 +266,19 @@ def gen_value(t, rng, depth=0):
 
 def rng_for(seed, salt):
     return random.Random('%s/%s' % (seed, salt))
+
+
+# every member kind once, in the combinations the layout rules distinguish (deterministic part of the C++ families)
+CXX_PROBES = [
+    ('P0', [('plain', 'u8', 0), ('dynamic', 'u16', 0), ('plain', 'u32', 0)]),
+    ('P1', [('optional', 'u64', 0), ('limited', 'u16', 2), ('plain', 'D1', 0), ('ext', 'u32', 0)]),
+    ('P2', [('plain', 'U8', 0), ('fixed', 'F16', 2), ('plain', 'E', 0), ('greedy', 'u16', 0)]),
+    ('P3', [('dynamic', 'D1', 0), ('bdynamic', 'byte', 0), ('plain', 'u64', 0)]),
+    ('P4', [('optional', 'F16', 0), ('optional', 'u8', 0), ('dynamic', 'E', 0), ('plain', 'i16', 0)]),
+    ('P5', [('ext', 'D8', 0), ('blimited', 'byte', 5), ('plain', 'DD', 0), ('bgreedy', 'byte', 0)]),
+    ('P6', [('limited', 'F64', 2), ('optional', 'FO8', 0), ('fixed', 'U12', 3), ('plain', 'G16', 0)]),
+    ('P7', [('bext', 'byte', 0), ('plain', 'i64', 0), ('dynamic', 'U4', 0), ('greedy', 'D1', 0)]),
+    ('P8', [('bfixed', 'byte', 3), ('plain', 'TF64', 0), ('dynamic', 'FL', 0)]),
+    ('P9', [('optional', 'FO', 0), ('optional', 'F64', 0), ('optional', 'E', 0), ('optional', 'U12', 0)]),
+    ('P10', [('limited', 'E1', 2), ('ext', 'F12', 0), ('greedy', 'F64', 0)]),
+]
